@@ -31,11 +31,21 @@ XPowMinus1(L) == [i \in 1..(L + 1) |-> IF i = 1 THEN 0 - 1 ELSE IF i = L + 1 THE
 
 Divisors(L) == {d \in 1..L : L % d = 0}
 
-RECURSIVE Phi(_)
-RECURSIVE DivAll(_, _)
-DivAll(p, ds) == IF ds = {} THEN p
-                 ELSE LET d == CHOOSE x \in ds : TRUE IN DivAll(PQuo(p, Phi(d)), ds \ {d})
-Phi(L) == IF L = 1 THEN <<0 - 1, 1>> ELSE DivAll(XPowMinus1(L), Divisors(L) \ {L})
+\* Phi_L = PROD_{d | L} (X^d - 1)^mu(L/d)   (Moebius inversion: one exact division, no recursion over divisors)
+IsPrime(p) == p >= 2 /\ \A k \in 2..(p - 1) : p % k # 0
+Mu(n) == IF \E p \in 2..n : n % (p * p) = 0 THEN 0
+         ELSE IF Cardinality({p \in 2..n : IsPrime(p) /\ n % p = 0}) % 2 = 0 THEN 1 ELSE 0 - 1
+PMul(p, q) == IF p = << >> \/ q = << >> THEN << >>
+              ELSE [i \in 1..(Len(p) + Len(q) - 1) |->
+                      LET lo == IF i - Len(q) + 1 > 1 THEN i - Len(q) + 1 ELSE 1
+                          hi == IF i < Len(p) THEN i ELSE Len(p)
+                          S[j \in (lo - 1)..hi] == IF j = lo - 1 THEN 0 ELSE S[j - 1] + p[j] * q[i - j + 1]
+                      IN S[hi]]
+RECURSIVE PProd(_, _)
+PProd(ds, acc) == IF ds = {} THEN acc
+                  ELSE LET d == CHOOSE x \in ds : TRUE IN PProd(ds \ {d}, PMul(acc, XPowMinus1(d)))
+Phi(L) == PQuo(PProd({d \in Divisors(L) : Mu(L \div d) = 1}, <<1>>),
+               PProd({d \in Divisors(L) : Mu(L \div d) = 0 - 1}, <<1>>))
 
 \* c : [0..L-1 -> Int]
 AsPoly(c, L) == [i \in 1..L |-> c[i - 1]]
